@@ -729,7 +729,7 @@ func ruleC17(c *Ctx) {
 	}
 	// every test guards the append: bans, rc(bans) and filters are each consulted
 	var haveBan, haveRC, haveFn bool
-	var filtered []string
+	var filtered, lenFiltered []string
 	fam := family(cb)
 	for _, f := range fam {
 		ftb := newTB(f)
@@ -770,7 +770,11 @@ func ruleC17(c *Ctx) {
 							for _, a := range pcd.atoms() {
 								nOp += len(opaqueParts(a.Atom, vocabOf("call[poly/transform.ReverseComplement](x)")))
 							}
-							if pcd.Op != "true" && nOp == 0 {
+							if pcd.Op != "true" && nOp == 0 && strings.Contains(pcd.String(), "call[builtin:len](") {
+								// a ban longer than a barcode cannot occur in one: leaving it out is the same test.
+								// Which lengths a condition leaves out is arithmetic this rule does not do.
+								lenFiltered = append(lenFiltered, "a banned sequence gets into the list that is tested only under "+short(pcd.String())+" (at "+c.W.pos(site.At.Pos())+"): whether only bans too long for a barcode are left out is not decided")
+							} else if pcd.Op != "true" && nOp == 0 {
 								filtered = append(filtered, "a banned sequence gets into the list that is tested only under "+short(pcd.String())+" (at "+c.W.pos(site.At.Pos())+"): the others are never looked for in a barcode")
 							}
 						}
@@ -798,6 +802,8 @@ func ruleC17(c *Ctx) {
 	switch {
 	case len(filtered) > 0:
 		c.bad("RETEST", "all three test kinds present", cb.Pos(), strings.Join(filtered, "; "))
+	case len(lenFiltered) > 0:
+		c.undecided("RETEST", "all three test kinds present", cb.Pos(), strings.Join(lenFiltered, "; "))
 	case haveBan && haveRC && haveFn:
 		c.ok("RETEST", "all three test kinds present", cb.Pos(), "window tested against each ban, each reverse-complemented ban and each filter")
 	default:
